@@ -56,9 +56,15 @@ impl Command for CommandImpl {
             if start > end {
                 CommandResult::Error("Invalid arguments provided, range start value cannot be bigger than the range end value.".to_string())
             } else {
-                let array: Vec<_> = (start..end)
-                    .map(|value| StateValue::Number64Bit(value))
-                    .collect();
+                // a range that cannot be allocated is an error of the caller, not a reason to panic or abort
+                let size = (end as i128 - start as i128) as u128;
+                let mut array: Vec<StateValue> = Vec::new();
+                if size > usize::MAX as u128 || array.try_reserve_exact(size as usize).is_err() {
+                    return CommandResult::Error(
+                        format!("Unable to allocate range of size: {}", size).to_string(),
+                    );
+                }
+                array.extend((start..end).map(|value| StateValue::Number64Bit(value)));
 
                 let key = put_handle(context.state, StateValue::List(array));
 
